@@ -1,4 +1,6 @@
 """C07 -- row-wise scans and reorderings equal numpy applied to each row."""
+import copy
+import warnings
 import numpy as np
 from ..core import CTX, attempt, held, violated, undefined, same_array, peek, short, lists_same, same_dtype
 from .. import gen, contracts
@@ -20,7 +22,7 @@ ANCHORS = [
 ]
 OPS = ["cumsum", "np.cumsum", "add.acc", "subtract.acc", "xor.acc", "sort", "unique", "unique_counts", "diff"]
 FLOOR_TAGS = ["op:" + o for o in OPS] + ["kind:b", "kind:i", "kind:u", "kind:f", "norows", "allempty", "e-first", "e-last", "e-mid", "e-consec", "e-none",
-                                         "recv:fresh", "recv:lazyrows", "recv:lazycols+2", "diff-n>len", "v:extreme", "v:dups", "op-write-op", "ntype:uint8", "ntype:int64", "many-empty-rows", "cumsum-dtype="]
+                                         "recv:fresh", "recv:lazyrows", "recv:lazycols+2", "diff-n>len", "v:extreme", "v:dups", "op-write-op", "ntype:uint8", "ntype:int64", "many-empty-rows", "cumsum-dtype=", "op:chain", "chain-step:astype", "chain-step:unique", "chain-step:sort", "chain-step:write"]
 FLOOR_MONITORS = ["c07:compare"]
 N_RANDOM = {"quick": 36000, "thorough": 400000}
 
@@ -33,7 +35,136 @@ def mk_case(lens, dtype, vals, op, n=1, vclass="small", recv="fresh", rewrite=No
     return {"lens": list(lens), "dtype": np.dtype(dtype).name, "vals": vals, "op": op, "n": n, "vclass": vclass, "recv": recv, "rewrite": rewrite}
 
 
+CHAIN_OPS = ["sort", "unique", "astype", "neg", "rev", "cumsum", "diff", "abs", "rowsel", "write"]
+
+
+def chain_step(st, x, rows, lib):
+    """-> (new library value, new list of numpy rows); x / rows are not replaced for 'write' (in place)"""
+    op = st[0]
+    if op == "sort":
+        return x.sort(axis=-1), [np.sort(r) for r in rows]
+    if op == "unique":
+        return np.unique(x, axis=-1), [np.unique(r) for r in rows]
+    if op == "astype":
+        with warnings.catch_warnings():
+            warnings.simplefilter("ignore")
+            return x.astype(st[1]), [r.astype(st[1]) for r in rows]
+    if op == "neg":
+        return np.negative(x), [np.negative(r) for r in rows]
+    if op == "abs":
+        return np.absolute(x), [np.absolute(r) for r in rows]
+    if op == "rev":
+        return x[:, ::-1], [r[::-1] for r in rows]
+    if op == "cumsum":
+        return np.cumsum(x, axis=-1), [np.cumsum(r) for r in rows]
+    if op == "diff":
+        return np.diff(x, n=st[1], axis=-1), [np.diff(r, n=st[1]) for r in rows]
+    if op == "rowsel":
+        idx = list(st[1])
+        return x[idx], [rows[i] for i in idx]
+    if op == "write":
+        nz = [i for i, r in enumerate(rows) if len(r)]
+        if not nz:
+            return x, rows
+        i = nz[st[1] % len(nz)]
+        j = st[2] % len(rows[i])
+        v = np.array(st[3]).astype(rows[i].dtype)
+        x[i, j] = v
+        rows = [r.copy() for r in rows]
+        rows[i][j] = v
+        return x, rows
+    raise ValueError(op)
+
+
+def run_chain(case):
+    """several operations in a row, each applied to the result of the previous one; numpy on each row after every step"""
+    lib = CTX.lib
+    RA = lib.RaggedArray
+    lens = case["lens"]
+    dt = np.dtype(case["dtype"])
+    flat = np.array(case["vals"], dtype=dt)
+    rows = gen.split_rows(flat, lens)
+    recv = case.get("recv", "fresh")
+    x, parent = c02.build_receiver(recv, flat, lens)
+    tags = ["op:chain", "kind:" + dt.kind, "recv:" + recv, "chain:%d" % len(case["steps"])] + gen.empty_placement(lens)
+    for k, st in enumerate(case["steps"]):
+        st = tuple(st)
+        tags.append("chain-step:" + st[0])
+        try:
+            exp_rows = chain_step_rows(st, rows)
+        except Exception as e:
+            return undefined("numpy raises at step %d: %r" % (k, e), tags)
+        CTX.tick("c07:compare", sum(lens) > 0)
+        a = attempt(lambda: chain_step(st, x, rows, lib)[0])
+        desc = "chain %s on %s rows %s [%s receiver]" % (short(case["steps"][:k + 1], 200), dt, short([r.tolist() for r in gen.split_rows(flat, lens)], 160), recv)
+        if not a.ok:
+            return violated("%s: step %d raised %s: %s" % (desc, k, type(a.exc).__name__, a.exc), tags)
+        x = a.value
+        if not isinstance(x, RA):
+            return violated("%s: step %d returned a %s" % (desc, k, type(x).__name__), tags)
+        got = attempt(lambda: [np.asarray(r) for r in copy.copy(x)])
+        if not got.ok or len(got.value) != len(exp_rows) or not all(same_array(g, e, dtype=False) for g, e in zip(got.value, exp_rows)):
+            return violated("%s: after step %d the rows are %s, numpy row by row gives %s" % (desc, k, repr(got) if not got.ok else short([g.tolist() for g in got.value], 200), short([e.tolist() for e in exp_rows], 200)),
+                            tags + ["chain-diverged"])
+        if sum(len(e) for e in exp_rows) and not same_dtype(x.dtype, np.concatenate(exp_rows).dtype):
+            return violated("%s: after step %d the element type is %s, numpy gives %s" % (desc, k, x.dtype, np.concatenate(exp_rows).dtype), tags + ["dtype-differs"])
+        rows = exp_rows
+    return held(tags, len(lens) >= 2 and sum(lens) >= 2)
+
+
+def chain_step_rows(st, rows):
+    class _Dummy:
+        pass
+    op = st[0]
+    if op == "write":
+        nz = [i for i, r in enumerate(rows) if len(r)]
+        if not nz:
+            return rows
+        i = nz[st[1] % len(nz)]
+        j = st[2] % len(rows[i])
+        out = [r.copy() for r in rows]
+        out[i][j] = np.array(st[3]).astype(rows[i].dtype)
+        return out
+    with warnings.catch_warnings():
+        warnings.simplefilter("ignore")
+        return {"sort": lambda: [np.sort(r) for r in rows], "unique": lambda: [np.unique(r) for r in rows], "astype": lambda: [r.astype(st[1]) for r in rows],
+                "neg": lambda: [np.negative(r) for r in rows], "abs": lambda: [np.absolute(r) for r in rows], "rev": lambda: [r[::-1] for r in rows],
+                "cumsum": lambda: [np.cumsum(r) for r in rows], "diff": lambda: [np.diff(r, n=st[1]) for r in rows], "rowsel": lambda: [rows[i] for i in st[1]]}[op]()
+
+
+def gen_chain(rng, tier, recv="fresh"):
+    lens, _ = gen.length_vector(rng, tier)
+    dtype = rng.choice(["int64", "int64", "int32", "int16", "uint8", "int8", "uint16"])
+    vals = gen.values(rng, dtype, sum(lens), rng.choice(["small", "extreme", "dups" if False else "small"])).tolist()
+    steps = []
+    n = len(lens)
+    cur_int = True
+    for _ in range(rng.randint(2, 5)):
+        op = rng.choice(CHAIN_OPS)
+        if op == "astype":
+            steps.append(["astype", rng.choice(["uint8", "int8", "bool", "int64", "uint16", "int16", "float64"])])
+            cur_int = steps[-1][1] not in ("bool", "float64")
+        elif op == "diff":
+            steps.append(["diff", rng.choice([1, 1, 2])])
+        elif op == "rowsel":
+            if n == 0:
+                continue
+            steps.append(["rowsel", [rng.randrange(n) for _ in range(rng.randint(1, n + 1))]])
+            n = len(steps[-1][1])
+        elif op == "write":
+            steps.append(["write", rng.randrange(100), rng.randrange(100), rng.choice([0, 1, 200, 255, 3])])
+        elif op == "cumsum":
+            if not cur_int:
+                continue
+            steps.append(["cumsum"])
+        else:
+            steps.append([op])
+    return {"op": "chain", "lens": lens, "dtype": dtype, "vals": vals, "steps": steps, "recv": recv, "n": 1, "vclass": "small"}
+
+
 def run(case):
+    if case.get("op") == "chain":
+        return run_chain(case)
     r = run_once(case, None)
     if r["verdict"] != "held" or not case.get("rewrite") or sum(case["lens"]) == 0 or case.get("recv") == "readonly":
         return r
@@ -273,6 +404,8 @@ def sweep(tier):
 
 
 def random_case(rng, tier):
+    if rng.random() < 0.1:
+        return gen_chain(rng, tier, rng.choice([r_ for r_ in c02.RECVS if r_ != "readonly"]) if rng.random() < 0.3 else "fresh")
     lens, _ = gen.length_vector(rng, tier)
     dtype = rng.choice(gen.DT_ALL)
     vclass = rng.choice(["small", "small", "dups", "extreme", "nonfinite"])
@@ -281,6 +414,8 @@ def random_case(rng, tier):
 
 
 def classify(case, res):
+    if case.get("op") == "chain":
+        return None
     dt = np.dtype(case["dtype"])
     if case["op"] in ("add.acc", "subtract.acc") and dt.kind == "f" and case["vclass"] in ("nonfinite", "extreme"):
         return "F07b"
